@@ -241,7 +241,7 @@ impl TypedScenario for C17Raw {
     }
     fn budget(&self, tier: Tier) -> usize {
         match tier {
-            Tier::Quick => 4000,
+            Tier::Quick => 12_000,
             Tier::Thorough => 1_500_000,
         }
     }
